@@ -175,6 +175,26 @@ func (f *FuncVC) returnInstr(st *State, x *ssa.Return) {
 			f.oblige(st, "post", cj.Label, cj.Term)
 		}
 	}
+	if len(f.con.Asserts) > 0 && x.Pos().IsValid() {
+		// return_assert: evaluated at the return statement, locals and results visible
+		lev := f.baseEval(st)
+		lev.locals = true
+		lev.pos = x.Pos()
+		lev.oldEnv = f.paramEntry
+		for i, r := range results {
+			if i < len(f.con.Results) {
+				lev.env[f.con.Results[i]] = r
+			}
+		}
+		for _, c := range f.con.Asserts {
+			if !lev.scopeHas(c.Expr) {
+				continue // mentions a local that is not in scope at this return
+			}
+			for _, cj := range lev.evalConj(c.Expr) {
+				f.oblige(st, "assert", "at return: "+cj.Label, cj.Term)
+			}
+		}
+	}
 	// cover: this return is reachable
 	o := &Obligation{Name: fmt.Sprintf("%s#cover:return@b%d", f.name(), x.Block().Index), Kind: "cover", Func: f.name(), Prefix: len(f.sc.cmds), PC: st.pc, Goal: "false", Expect: "sat", fv: f}
 	f.obls = append(f.obls, o)
@@ -513,7 +533,13 @@ func (f *FuncVC) loopHead(st *State, li *loopInfo) {
 		if li.con == nil {
 			li.con = &LoopContract{Ordinal: li.ordinal}
 		}
-		_, ln, _, ok := f.mapHeaps(st, nil, mt)
+		dom, ln, ksort, ok := f.mapHeaps(st, nil, mt)
+		if ok && !hs.all && !hs.prefixes[mapHeapPrefix(mt)] {
+			// the map is not modified by the loop: every key produced so far is in its domain
+			seen := f.heap(st, "R:seen."+ksort, "(Array Int (Array "+ksort+" Bool))")
+			q := f.sc.fresh("k")
+			f.assume(st, "(forall (("+q+" "+ksort+")) (! (=> (select (select "+seen+" "+mref+") "+q+") (select (select "+dom+" "+mref+") "+q+")) :pattern ((select (select "+seen+" "+mref+") "+q+"))))")
+		}
 		if ok {
 			cnt := f.heap(st, "R:cnt", "(Array Int Int)")
 			f.assume(st, and(cmp("<=", "0", sel(cnt, mref)), cmp("<=", sel(cnt, mref), sel(ln, mref))))
